@@ -1,6 +1,577 @@
-"""Monitors for the floor properties, written from the property texts; they run on the implementation's observations."""
-MONITORS = {}
+"""Monitors for the whole-system properties, written from the property texts.  They run on
+the implementation's own observations (harness/fam_floor.py: observe) and are search aids:
+they turn a broken tie or proof into a concrete failing input.  They are never the reason a
+check passes (DESIGN.md section 4c)."""
+from collections import Counter
+
+HOLDERS = (2, 3, 4, 5, 6, 7)
+SINGLE_SLOT = (2, 3, 5, 6)
+
+
+def _ents(sc):
+    """model id -> entity dict (groups take two ids: input then output)"""
+    out, groups, n = {}, {}, 0
+    for e in sc['entities']:
+        if e['kind'] == 'group':
+            n += 2
+            groups[e['gid']] = dict(gin=n - 1, gout=n, devices=e['devices'], paths=[])
+            out[n - 1] = dict(kind='gin', gid=e['gid'])
+            out[n] = dict(kind='gout', gid=e['gid'])
+            continue
+        n += 1
+        out[n] = e
+        if e['kind'] == 'path':
+            groups[e['gid']]['paths'].append(n)
+    return out, groups
+
+
+def _leaves(info):
+    return [] if info is None else info['leaves']
+
+
+def _items_in(dev):
+    """(slot name, item info) for everything a device holds"""
+    res = []
+    for slot in ('part', 'out', 'inprog'):
+        if dev.get(slot):
+            res.append((slot, dev[slot]))
+    for t, it in dev.get('buf', []):
+        res.append(('buf', it))
+    return res
+
+
+def _time_may_advance(o):
+    live = [e for e in o['queue'] if not e[-1]]
+    return not any(e[0] <= o['now'] for e in live)
+
+
+def _bad(v, sig, what):
+    v.append(dict(sig=sig, what=what))
+
+
+# ------------------------------------------------------------------------------------------ C02
+def monitor_c02(sc, obs):
+    v = []
+    ents, _ = _ents(sc)
+    known = {}          # item id -> leaves (for failure records)
+    lost = []
+    census_ok = True
+    for i, o in enumerate(obs):
+        devs = o['devices']
+        for d, e in devs.items():
+            for _, it in _items_in(e):
+                known[it['id']] = it['leaves']
+        for r in o['data']:
+            if r[0] == 8 and r[4] != -1:
+                if r[4] in known:
+                    lost += known[r[4]]
+                else:
+                    census_ok = False
+        inside = []
+        for d, e in devs.items():
+            if e['kind'] == 6:
+                continue
+            for slot, it in _items_in(e):
+                inside += it['leaves']
+        dup = [x for x, c in Counter(inside).items() if c > 1]
+        if dup:
+            _bad(v, 'C02/duplicated', 'op %d %s: part(s) %s are held in two places at once' % (i, o['op'], dup[:4]))
+        for d, e in devs.items():
+            if e['kind'] in SINGLE_SLOT and e.get('part') and e.get('out'):
+                _bad(v, 'C02/two-parts-one-slot', 'op %d: single-slot device %d holds an input part and a finished part' % (i, d))
+            if e['kind'] == 5 and e['budget'] is not None and e['produced'] > e['budget']:
+                _bad(v, 'C02/over-budget', 'op %d: source %d supplied %d parts with a budget of %d' % (i, d, e['produced'], e['budget']))
+        if o['st'] not in (0, 2, 3):
+            census_ok = False       # an aborted action (exception) is outside the well-posed class
+        if census_ok:
+            generated = 0
+            for d, e in devs.items():
+                if e['kind'] == 5:
+                    n = ents[d].get('gen_batch', 0)
+                    generated += e['generated'] * (n if n > 0 else 1)
+            sunk = sum(e['received'] for e in devs.values() if e['kind'] == 6)
+            if generated != len(inside) + sunk + len(lost):
+                _bad(v, 'C02/census', 'op %d %s (t=%d): %d parts generated but %d inside devices + %d received by sinks + %d reported lost' % (
+                    i, o['op'], o['now'], generated, len(inside), sunk, len(lost)))
+                census_ok = False
+    return v
+
+
+# ------------------------------------------------------------------------------------------ C03
+def _would_accept(o, ents, groups, d, it, depth=0):
+    e = o['devices'][d]
+    k = e['kind']
+    if depth > 40:
+        return False
+    if k in (2, 5, 6, 7):
+        return not e['block'] and not e.get('part') and not e.get('out')
+    if k == 3:
+        if e['block'] or e['shut'] or e.get('part') or e.get('out'):
+            return False
+        if e['req'] is not None and e['reserved'] is None:
+            pd = {p[0]: (p[1], p[2]) for p in o['pools']}
+            for n, a in e['req']:
+                if a > 0 and (n not in pd or pd[n][1] - pd[n][0] < a):
+                    return False
+        return True
+    if k == 4:
+        if e['block'] or e.get('part') or e.get('out'):
+            return False
+        return e['capacity'] is None or e['level'] + len(it['leaves']) <= e['capacity']
+    if k in (0, 1):
+        if e['block']:
+            return False
+        if k == 1 and not _decide(ents[d]['decider'], it):
+            return False
+        return any(_would_accept(o, ents, groups, x, it, depth + 1) for x in e['down'])
+    if k == 8:
+        if e['block']:
+            return False
+        it2 = dict(it, gpath=it['gpath'] + [d])
+        return _would_accept(o, ents, groups, groups[ents[d]['gid']]['gin'], it2, depth + 1)
+    if k == 9:
+        if e['block']:
+            return False
+        return any(_would_accept(o, ents, groups, x, it, depth + 1) for x in e['down'])
+    if k == 10:
+        if not it['gpath']:
+            return False
+        p = it['gpath'][-1]
+        it2 = dict(it, gpath=it['gpath'][:-1])
+        return any(_would_accept(o, ents, groups, x, it2, depth + 1) for x in o['devices'][p]['down'])
+    return False
+
+
+def _decide(dc, it):
+    c, a = dc
+    if c == 0:
+        return True
+    if c == 1:
+        return False
+    if c == 2:
+        return a <= it['q']
+    if c == 3:
+        return it['q'] < a
+    if c == 4:
+        return a <= it['v']
+    if c == 5:
+        return it['v'] < a
+    if c == 6:
+        return it['id'] % 2 == 0
+    return it['id'] % 2 == 1
+
+
+def monitor_c03(sc, obs):
+    v = []
+    ents, groups = _ents(sc)
+    started = False
+    for i, o in enumerate(obs):
+        if o['op'][0] == 'init':
+            started = True
+        if not started or o['st'] not in (0, 2, 3):
+            if o['st'] not in (0, 2, 3):
+                return v
+            continue
+        if not _time_may_advance(o):
+            continue
+        for d, e in o['devices'].items():
+            k = e['kind']
+            ready = None
+            if k in (2, 3, 5, 7) and e.get('out'):
+                if k == 3 and e['shut']:
+                    continue
+                if k == 5 and e['budget'] is not None and e['budget'] - e['produced'] < 1:
+                    continue
+                ready = e['out']
+            elif k == 4 and e['buf']:
+                t0, it = e['buf'][0]
+                if o['now'] - t0 >= e['min_delay']:
+                    ready = it
+            if ready is None:
+                continue
+            for x in e['down']:
+                if _would_accept(o, ents, groups, x, ready):
+                    _bad(v, 'C03/lost-wakeup', 'op %d %s (t=%d): device %d holds ready part %d, its downstream %d would accept it, and nothing is scheduled at this instant' % (
+                        i, o['op'], o['now'], d, ready['id'], x))
+                    return v
+    return v
+
+
+# ------------------------------------------------------------------------------------------ C05
+def monitor_c05(sc, obs):
+    v = []
+    prev = {}
+    for i, o in enumerate(obs):
+        for d, e in o['devices'].items():
+            if e['kind'] != 4:
+                continue
+            stored = sum(len(it['leaves']) for _, it in e['buf'])
+            if e['level'] != stored:
+                _bad(v, 'C05/level', 'op %d: buffer %d reports level %d but stores %d parts' % (i, d, e['level'], stored))
+            if e['capacity'] is not None and stored > e['capacity']:
+                _bad(v, 'C05/over-capacity', 'op %d: buffer %d stores %d parts, capacity %d' % (i, d, stored, e['capacity']))
+            ids = [it['id'] for _, it in e['buf']]
+            if d in prev:
+                pids, ptimes = prev[d]
+                # FIFO: what left is a prefix of what was stored; arrivals go to the back
+                k = 0
+                while k < len(pids) and pids[k] not in ids:
+                    k += 1
+                rest = pids[k:]
+                if ids[:len(rest)] != rest:
+                    _bad(v, 'C05/fifo', 'op %d %s: buffer %d held %s and now holds %s: parts did not leave in arrival order' % (i, o['op'], d, pids, ids))
+                if o['op'][0] == 'step':
+                    for j in range(k):
+                        if o['now'] - ptimes[j] < e['min_delay']:
+                            _bad(v, 'C05/min-delay', 'op %d: part %d left buffer %d after %d/8 < minimum delay %d/8' % (
+                                i, pids[j], d, o['now'] - ptimes[j], e['min_delay']))
+            prev[d] = (ids, [t for t, _ in e['buf']])
+    return v
+
+
+# ------------------------------------------------------------------------------------------ C06
+def monitor_c06(sc, obs):
+    v = []
+    ents, _ = _ents(sc)
+    plain = {}
+    for d, e in ents.items():
+        if e['kind'] in ('processor', 'handler'):
+            cbs = [c[0] for c in e.get('on_receive', [])]
+            if 'set_cycle' not in cbs and 'offset_next' not in cbs:
+                plain[d] = e['cycle']
+    accept = {}       # (d, part) -> time
+    finished = set()
+    down = {d: [] for d in plain}       # shutdown intervals [start, end or None]
+    shut_prev = {}
+    aborted = False
+    epoch = 0          # several events happen inside one run(): shutdown intervals are then not observable exactly
+    for i, o in enumerate(obs):
+        if o['st'] not in (0, 2, 3):
+            aborted = True
+        if o['op'][0] == 'run':
+            epoch += 1
+            accept.clear()
+        for d in plain:
+            e = o['devices'][d]
+            s = e.get('shut', False)
+            if s and not shut_prev.get(d, False):
+                down[d].append([o['now'], None])
+            if not s and shut_prev.get(d, False) and down[d] and down[d][-1][1] is None:
+                down[d][-1][1] = o['now']
+            shut_prev[d] = s
+        if aborted:
+            continue
+        for r in o['data']:
+            lab, d = r[0], r[1]
+            if d not in plain:
+                continue
+            if lab == 7:
+                if (d, r[4]) in finished:
+                    _bad(v, 'C06/finished-twice', 'op %d: device %d finished part %d twice' % (i, d, r[4]))
+                finished.add((d, r[4]))
+            if o['op'][0] == 'run':
+                continue
+            if lab == 6:
+                accept[(d, r[4])] = r[3]
+            elif lab == 8 and r[4] != -1:
+                accept.pop((d, r[4]), None)
+            elif lab == 7:
+                key = (d, r[4])
+                if key not in accept:
+                    continue
+                t0 = accept.pop(key)
+                dt = 0
+                for a, b in down[d]:
+                    b2 = r[3] if b is None else b
+                    dt += max(0, min(b2, r[3]) - max(a, t0))
+                if r[3] - t0 != plain[d] + dt:
+                    _bad(v, 'C06/cycle-time', 'op %d: device %d released part %d after %d/8 (accepted %d, finished %d), cycle time %d/8 + shutdown time %d/8' % (
+                        i, d, r[4], r[3] - t0, t0, r[3], plain[d], dt))
+    # sources need their full cycle time per part; sinks accept no sooner than their cycle time after the previous part
+    sup, rec = {}, {}
+    for i, o in enumerate(obs):
+        for r in o['data']:
+            if r[0] == 10:
+                sup.setdefault(r[1], []).append(r[3])
+            if r[0] == 6 and ents.get(r[1], {}).get('kind') == 'sink':
+                rec.setdefault(r[1], []).append(r[3])
+    for d, ts in sup.items():
+        c = ents[d]['cycle']
+        for a, b in zip(ts, ts[1:]):
+            if b - a < c:
+                _bad(v, 'C06/source-cycle', 'source %d supplied parts at %d and %d, cycle time %d/8' % (d, a, b, c))
+                break
+    for d, ts in rec.items():
+        c = ents[d]['cycle']
+        for a, b in zip(ts, ts[1:]):
+            if b - a < c:
+                _bad(v, 'C06/sink-cycle', 'sink %d received parts at %d and %d, cycle time %d/8' % (d, a, b, c))
+                break
+    return v
+
+
+# ------------------------------------------------------------------------------------------ C08
+def monitor_c08(sc, obs):
+    v = []
+    ents, groups = _ents(sc)
+    if any(x[0] == 'now' and x[1][0] == 'set_upstream' for x in sc['ext']):
+        return v
+    kinds = {d: e['kind'] for d, e in ents.items()}
+    has_batches = any(e['kind'] == 'batcher' or e.get('gen_batch', 0) > 0 for e in sc['entities'])
+    gouts_of = {}
+    for gid, g in groups.items():
+        gouts_of[gid] = g
+    for i, o in enumerate(obs):
+        devs = o['devices']
+
+        def ok_edge(a, b, stack):
+            da = devs[a]['down']
+            if b in da:
+                return True
+            if kinds[a] == 'path':
+                return b in devs[groups[ents[a]['gid']]['gin']]['down']
+            # leaving a group through its output device: next hop is downstream of a path of that group
+            for gid, g in groups.items():
+                if g['gout'] in da:
+                    if any(b in devs[p]['down'] for p in g['paths']):
+                        return True
+            return False
+        for d, e in devs.items():
+            for slot, it in _items_in(e):
+                for h in [it['hist']] + it['leaf_hists']:
+                    if not h:
+                        continue
+                    for a, b in zip(h, h[1:]):
+                        if not ok_edge(a, b, None):
+                            _bad(v, 'C08/history-edge', 'op %d: part %d in device %d has routing history %s: %d -> %d is not a configured connection' % (
+                                i, it['id'], d, h, a, b))
+                            return v
+                    if slot in ('part', 'out', 'buf') and it['hist'] and it['hist'][-1] != d and not (e['kind'] == 7):
+                        _bad(v, 'C08/history-last', 'op %d: part %d is held by device %d but its routing history ends with %d' % (i, it['id'], d, it['hist'][-1]))
+                        return v
+                    if kinds.get(h[0]) != 'source' and not (it['batch'] and h is it['hist']):
+                        _bad(v, 'C08/history-first', 'op %d: routing history of part %d starts with %d which is not a source' % (i, it['id'], h[0]))
+                        return v
+        # gate predicates: a part whose history contains a gate must satisfy it (for state-independent deciders: parity of id);
+        # with batches the gate judged the batch object, not its parts
+        for d, e in (devs.items() if not has_batches else []):
+            for slot, it in _items_in(e):
+                for g in it['hist']:
+                    if kinds.get(g) == 'gate' and ents[g]['decider'][0] in (6, 7) and not _decide(ents[g]['decider'], it):
+                        _bad(v, 'C08/gate', 'op %d: part %d passed gate %d whose predicate rejects it' % (i, it['id'], g))
+                        return v
+    # a sink's collected list is in arrival order
+    order = {}
+    for o in obs:
+        for r in o['data']:
+            if r[0] == 6 and kinds.get(r[1]) == 'sink':
+                order.setdefault(r[1], []).append(r[4])
+    if obs:
+        for d, e in obs[-1]['devices'].items():
+            if e['kind'] == 6 and ents[d].get('collect') and e['collected'] != order.get(d, []):
+                _bad(v, 'C08/collected-order', 'sink %d collected %s but received %s' % (d, e['collected'][:8], order.get(d, [])[:8]))
+    return v
+
+
+# ------------------------------------------------------------------------------------------ C11
+def monitor_c11(sc, obs):
+    v = []
+    for i, o in enumerate(obs):
+        if o['st'] not in (0, 2, 3):
+            return v
+        held = Counter()
+        for d, e in o['devices'].items():
+            if e['kind'] != 3 or e['req'] is None:
+                continue
+            want = sorted([n, a] for n, a in e['req'] if a > 0)
+            if e.get('part') and (e['reserved'] is None or sorted(e['reserved']) != want):
+                _bad(v, 'C11/working-without-resources', 'op %d %s: processor %d has part %d in process but holds %s, requires %s' % (
+                    i, o['op'], d, e['part']['id'], e['reserved'], want))
+            if e['reserved'] is not None:
+                if sorted(e['reserved']) != want:
+                    _bad(v, 'C11/holds-wrong-amounts', 'op %d: processor %d holds %s, requires %s' % (i, d, e['reserved'], want))
+                for n, a in e['reserved']:
+                    held[n] += a
+                if _time_may_advance(o) and not e.get('part') and not e['shut']:
+                    _bad(v, 'C11/idle-holding', 'op %d %s (t=%d): idle operational processor %d still holds %s when time advances' % (
+                        i, o['op'], o['now'], d, e['reserved']))
+        for n, u, c in o['pools']:
+            if u != held.get(n, 0):
+                _bad(v, 'C11/usage-neq-holdings', 'op %d %s: pool r%d usage %d/8 but processors hold %d/8' % (i, o['op'], n, u, held.get(n, 0)))
+    return v
+
+
+# ------------------------------------------------------------------------------------------ C13
+def monitor_c13(sc, obs):
+    v = []
+    ents, _ = _ents(sc)
+    procs = [d for d, e in ents.items() if e['kind'] == 'processor']
+    up = {d: 0 for d in procs}
+    use = {d: 0 for d in procs}
+    prev = None
+    for i, o in enumerate(obs):
+        if o['st'] not in (0, 2, 3):
+            return v
+        if prev is not None:
+            dt = o['now'] - prev['now']
+            for d in procs:
+                pe = prev['devices'][d]
+                if prev['started'] and not pe['shut']:
+                    up[d] += dt
+                    if pe.get('part'):
+                        use[d] += dt
+        started = (prev['started'] if prev else False) or o['op'][0] == 'init'
+        o['started'] = started
+        if started and o['op'][0] in ('step', 'init', 'at', 'now'):
+            for d in procs:
+                e = o['devices'][d]
+                if e['uptime'] != up[d]:
+                    _bad(v, 'C13/uptime', 'op %d %s (t=%d): processor %d reports uptime %d/8, it was operational for %d/8' % (i, o['op'], o['now'], d, e['uptime'], up[d]))
+                    return v
+                if e['utilization'] != use[d]:
+                    _bad(v, 'C13/utilization', 'op %d %s (t=%d): processor %d reports utilization %d/8, it processed parts for %d/8' % (
+                        i, o['op'], o['now'], d, e['utilization'], use[d]))
+                    return v
+        if o['op'][0] == 'run':
+            # several events: re-synchronise the integrals from the reported values
+            for d in procs:
+                up[d], use[d] = o['devices'][d]['uptime'], o['devices'][d]['utilization']
+        # accepts / releases while down, lost parts
+        if o['op'][0] == 'step' and prev is not None:
+            for r in o['data']:
+                d = r[1]
+                if d in procs and r[0] == 6 and prev['devices'][d]['shut'] and o['devices'][d]['shut']:
+                    _bad(v, 'C13/accepted-while-down', 'op %d: processor %d accepted part %d while shut down' % (i, d, r[4]))
+                if d in procs and r[0] == 8:
+                    pp = prev['devices'][d].get('part')
+                    want = pp['id'] if pp else -1
+                    if r[4] != want:
+                        _bad(v, 'C13/lost-part', 'op %d: failure of processor %d reports lost part %d, the part in process was %d' % (i, d, r[4], want))
+                    po = prev['devices'][d].get('out')
+                    if po and (not o['devices'][d].get('out') or o['devices'][d]['out']['id'] != po['id']):
+                        _bad(v, 'C13/finished-part-lost', 'op %d: failure of processor %d dropped its finished part %d' % (i, d, po['id']))
+                    cbs = ents[d].get('on_shutdown', [])
+                    if any(c[0] == 'log' for c in cbs) and want != -1:
+                        new = [c for c in o['cblog'][len(prev['cblog']):] if c[1] == d and c[4] == 1]
+                        if len(new) != 1 or new[0][5] != want:
+                            _bad(v, 'C13/failure-not-reported', 'op %d (t=%d): failure of processor %d (lost part %d) reached its shutdown callbacks %d times%s' % (
+                                i, o['now'], d, want, len(new), '' if not new else ' with part %d' % new[0][5]))
+        prev = o
+    return v
+
+
+# ------------------------------------------------------------------------------------------ C15
+def monitor_c15(sc, obs):
+    v = []
+    ents, _ = _ents(sc)
+    last_level, last_pool = {}, {}
+    counts = Counter()
+    has_batches = any(e['kind'] == 'batcher' or e.get('gen_batch', 0) > 0 for e in sc['entities'])
+    for i, o in enumerate(obs):
+        for r in o['data']:
+            if r[0] == 9:
+                last_level[r[1]] = r[4]
+            if r[0] == 1:
+                last_pool[r[1]] = (r[4], r[5])
+            counts[(r[0], r[1])] += 1
+            if r[0] in (6, 7, 8, 9, 10) and r[3] > o['now']:
+                _bad(v, 'C15/timestamp', 'op %d: a record carries time %d after the current time %d' % (i, r[3], o['now']))
+        if o['st'] not in (0, 2, 3):
+            return v
+        for d, e in o['devices'].items():
+            if e['kind'] == 4 and d in last_level and last_level[d] != e['level']:
+                _bad(v, 'C15/level-record', 'op %d %s: last recorded level of buffer %d is %d, its level is %d' % (i, o['op'], d, last_level[d], e['level']))
+            if e['kind'] == 5 and counts[(10, d)] != e['produced']:
+                _bad(v, 'C15/supplied-count', 'op %d: source %d reports %d produced parts, %d supplied_new_part records' % (i, d, e['produced'], counts[(10, d)]))
+            if e['kind'] == 6 and not has_batches and counts[(6, d)] != e['received']:
+                _bad(v, 'C15/received-count', 'op %d: sink %d reports %d received parts, %d received_part records' % (i, d, e['received'], counts[(6, d)]))
+        for n, u, c in o['pools']:
+            if n in last_pool and last_pool[n] != (u, c):
+                _bad(v, 'C15/resource-record', 'op %d %s: last recorded (usage, capacity) of r%d is %s, the pool has (%d, %d)' % (i, o['op'], n, last_pool[n], u, c))
+    return v
+
+
+# ------------------------------------------------------------------------------------------ C16
+def monitor_c16(sc, obs):
+    v = []
+    ents, _ = _ents(sc)
+    recv_value = Counter()
+    for i, o in enumerate(obs):
+        for r in o['data']:
+            if r[0] == 6 and ents.get(r[1], {}).get('kind') == 'sink':
+                recv_value[r[1]] += r[6]
+        if o['st'] not in (0, 2, 3):
+            return v
+        for d, e in o['devices'].items():
+            hist = e['value_hist']
+            tot = 0
+            for t, dl, val in hist:
+                tot += dl
+                if val != tot:
+                    _bad(v, 'C16/running-total', 'op %d: value history of device %d has running total %d/8 after changes summing to %d/8' % (i, d, val, tot))
+                if dl == 0:
+                    _bad(v, 'C16/zero-recorded', 'op %d: value history of device %d records a zero change' % (i, d))
+            if e['dev_value'] != tot:
+                _bad(v, 'C16/value-neq-history', 'op %d: device %d is worth %d/8, its history sums to %d/8' % (i, d, e['dev_value'], tot))
+            if e['kind'] == 6 and e['value'] != recv_value[d]:
+                _bad(v, 'C16/sink-value', 'op %d: sink %d is worth %d/8, the parts it received were worth %d/8' % (i, d, e['value'], recv_value[d]))
+    return v
+
+
+# ------------------------------------------------------------------------------------------ C17
+def monitor_c17(sc, obs):
+    v = []
+    arrived, left = {}, {}
+    prev = None
+    for i, o in enumerate(obs):
+        if o['st'] not in (0, 2, 3):
+            return v
+        for d, e in o['devices'].items():
+            if e['kind'] != 7:
+                continue
+            n = e['batch_size']
+            if e.get('out'):
+                if n is None and e['out']['batch']:
+                    _bad(v, 'C17/not-single', 'op %d: batcher %d configured for single parts offers a batch' % (i, d))
+                if n is not None and (not e['out']['batch'] or len(e['out']['leaves']) != n):
+                    _bad(v, 'C17/batch-size', 'op %d: batcher %d configured for batches of %d offers %s' % (i, d, n, e['out']['leaves']))
+            if e.get('inprog') and n is not None and len(e['inprog']['leaves']) >= n:
+                _bad(v, 'C17/inprogress-overfull', 'op %d: batcher %d keeps %d parts in an unfinished batch of size %d' % (i, d, len(e['inprog']['leaves']), n))
+            # order: everything inside, read output first, then in-progress, then the input still to unpack, is in arrival order
+            seq = _leaves(e.get('out')) + _leaves(e.get('inprog')) + _leaves(e.get('part'))
+            arr = arrived.setdefault(d, [])
+            for x in seq:
+                if x not in arr:
+                    arr.append(x)
+            pos = [arr.index(x) for x in seq]
+            if pos != sorted(pos):
+                _bad(v, 'C17/order', 'op %d: batcher %d holds parts %s, they arrived in order %s' % (i, d, seq, [arr[p] for p in sorted(pos)]))
+            if prev is not None and o['op'][0] == 'step':
+                pe = prev['devices'][d]
+                for r in o['data']:
+                    if r[0] == 6 and r[1] == d and (pe.get('part') or pe.get('out')):
+                        _bad(v, 'C17/accepted-while-busy', 'op %d: batcher %d accepted item %d while it still had input to unpack or output waiting' % (i, d, r[4]))
+        prev = o
+    return v
+
+
+MONITORS = {'C02': monitor_c02, 'C03': monitor_c03, 'C05': monitor_c05, 'C06': monitor_c06, 'C08': monitor_c08,
+            'C11': monitor_c11, 'C13': monitor_c13, 'C15': monitor_c15, 'C16': monitor_c16, 'C17': monitor_c17}
 
 
 def nontrivial(prop, sc, obs):
-    return bool(obs) and sum(len(o['data']) for o in obs) >= 10
+    if not obs:
+        return False
+    recs = Counter(r[0] for o in obs for r in o['data'])
+    kinds = Counter(e['kind'] for e in sc['entities'])
+    if prop in ('C05',):
+        return kinds['buffer'] > 0 and recs[9] >= 4
+    if prop in ('C06', 'C13'):
+        return recs[8] + sum(1 for o in obs for q in o['paused']) > 0 and recs[7] >= 2
+    if prop == 'C11':
+        return any(e.get('req') for e in sc['entities']) and recs[1] >= 4
+    if prop == 'C17':
+        return kinds['batcher'] > 0 and recs[6] >= 6
+    if prop == 'C08':
+        return (kinds['gate'] + kinds['path'] > 0) and recs[6] >= 6
+    return recs[6] >= 8 and recs[10] >= 3
